@@ -91,6 +91,10 @@ def match_tag(token, regex=match_tag_prefix_and_name):
         attrs.append(attr)
         d['suffix'] = token[m.end():]
 
+    if d['suffix'] is None:
+        # Not terminated: what follows the name is kept as it is.
+        d['suffix'] = token
+
     return d
 
 
